@@ -5,4 +5,5 @@ test -x /venv/bin/python
 command -v g++ >/dev/null
 command -v clang++-14 >/dev/null
 /venv/bin/python -c "import orjson, typing_extensions"
+/venv/bin/python tools/selfcheck.py | tail -1
 echo "setup ok"
